@@ -245,10 +245,14 @@ func (r *cacheRun) finish() bool {
 	select {
 	case <-done:
 		return false
-	case <-time.After(2 * time.Second):
+	case <-time.After(time.Second):
 		return true
 	}
 }
+
+// stuckRuns counts executions in which some Get never returned; after a handful the verdict is certain and
+// the enumeration stops paying the timeout for every further schedule.
+var stuckRuns int
 
 // abandon releases every gate so that goroutines do not leak.
 func (r *cacheRun) abandon() {
@@ -276,6 +280,13 @@ func runCacheSchedule(cfg cacheCfg, sched []string, quiet time.Duration, final b
 	stuck := false
 	if len(en) == 0 {
 		stuck = r.finish()
+		if stuck && len(r.enabled()) > 0 {
+			// a late call became an owner after the recorded schedule ended: let it finish
+			for _, a := range r.enabled() {
+				r.do(a, quiet)
+			}
+			stuck = r.finish()
+		}
 	} else {
 		r.abandon()
 	}
@@ -358,7 +369,7 @@ func exploreCache(stream string, cfg cacheCfg, quiet time.Duration, limit int, o
 	var stack []level
 	start := len(*out)
 	for {
-		if limit > 0 && len(*out)-start >= limit {
+		if (limit > 0 && len(*out)-start >= limit) || stuckRuns >= 6 {
 			return
 		}
 		*runs++
@@ -371,8 +382,17 @@ func exploreCache(stream string, cfg cacheCfg, quiet time.Duration, limit int, o
 		for {
 			en := r.enabled()
 			if len(en) == 0 {
-				stuck = r.finish()
-				break
+				if !r.finish() {
+					break
+				}
+				// not everything returned: a call that had not yet taken the lock when the schedule looked
+				// complete may have become an owner since and be parked in its fetch function
+				en = r.enabled()
+				if len(en) == 0 {
+					stuck = true
+					stuckRuns++
+					break
+				}
 			}
 			if depth < len(stack) {
 				// replaying a known prefix: the same actions must be enabled again
